@@ -33,13 +33,13 @@ def cases(ctx):
     for rep in range(reps):
         for k in counts:
             for enc in ASCII_FAMILY + EBCDIC_FAMILY:
-                for first in ('small', 'large', 'spanning'):
+                for first in ('small', 'large', 'spanning', 'huge', 'letters_then_fill'):
                     for fmt in ('1014', 'vbs'):
                         i += 1
                         if ctx.mine(i):
                             yield {'kind': 'writer', 'blocks': k, 'enc': enc, 'first': first, 'fmt': fmt, 'salt': rep}
     if ctx.shard == 0:
-        ctx.exhaustive_subspace('block counts 1..12, 50, 53, 64 x 6 codecs x 3 first-record shapes x {1014, vbs}', len(counts) * 36)
+        ctx.exhaustive_subspace('block counts 1..12, 50, 53, 64 x 6 codecs x 5 first-record shapes x {1014, vbs}', len(counts) * 60)
     for n in range(0, 24):
         i += 1
         if ctx.mine(i):
@@ -81,10 +81,33 @@ def build_messages(ctx, case):
 
     def size(ms):
         return sum(4 + len(ref.encode(x, msgwork.cfg_of('packaged'), enc)) for x in ms) + 4
-    first_extra = {'small': 0, 'large': 700, 'spanning': 1100}[case['first']]
-    if k == 1 and case['first'] == 'spanning':
+    fill_style = case['first'] == 'letters_then_fill'
+    first_extra = {'small': 0, 'large': 700, 'spanning': 1100, 'huge': 2600 + 300 * (case['salt'] % 5),
+                   'letters_then_fill': 1100}[case['first']]
+    if k == 1 and case['first'] in ('spanning', 'letters_then_fill'):
         first_extra = 900
-    msgs.append(m(first_extra))
+    if case['first'] == 'huge':
+        k = max(k, 4)
+        target_lo, target_hi = (k - 1) * 1012 + 1, k * 1012
+        first = m(1998)
+        first['DE127'] = letters(rng, enc, min(999, first_extra - 1998))
+        first['DE54'] = letters(rng, enc, 120)
+        msgs.append(first)
+    else:
+        msgs.append(m(first_extra))
+    if fill_style:
+        # every later text field is made of the 0x40 character of the codec (space in EBCDIC, '@' in ASCII): plenty of
+        # 0x40 0x40 pairs everywhere except under the first record, which covers offset 1012 with letters
+        fill_char = bytes([0x40]).decode(enc)
+        plain_m = m
+
+        def m(extra_len, _m=plain_m):          # noqa
+            d = _m(extra_len)
+            for key in ('DE72', 'DE111'):
+                if key in d:
+                    d[key] = fill_char * len(d[key])
+            d['DE42'] = fill_char * 15
+            return d
     guard = 0
     while size(msgs) < target_lo and guard < 500:
         guard += 1
@@ -128,6 +151,10 @@ def judge(ctx, case):
             ctx.inconclusive_because('writer failed while building a C17 file: %r' % (data,))
             return
         nblocks = len(data) // 1014 if blocked else None
+        if not blocked and data[1012:1014] != b'\x40\x40' and any(data[o - 2:o] == b'\x40\x40' for o in range(2028, len(data) + 1, 1014)):
+            ctx.count('unblocked files with 0x40 0x40 where a later block trailer would be but not at 1012')
+        if len(msgs) and len(data) > 2500 and int.from_bytes(data[:4], 'big') > 2496:
+            ctx.count('files whose first record is longer than the 2500-byte sample')
         if blocked:
             ctx.seen('block counts of blocked files inspected', nblocks)
         k1, info = ctx.call(m.ipm_info, io.BytesIO(data), budget=100000)
@@ -228,6 +255,10 @@ def require(m):
         reasons.append('blocked files with these block counts were never inspected: %s' % missing)
     if not any(k >= 50 for k in seen):
         reasons.append('no blocked file of 50+ blocks inspected')
+    if not m['counters'].get('unblocked files with 0x40 0x40 where a later block trailer would be but not at 1012'):
+        reasons.append('no unblocked file with 0x40 0x40 at a later trailer position (2026, 3040, ...) but not at 1012')
+    if not m['counters'].get('files whose first record is longer than the 2500-byte sample'):
+        reasons.append('no file whose first record exceeds the inspection sample')
     if set(m['classes'].get('first-bitmap bit classes', ())) != {'configured', 'unconfigured'}:
         reasons.append('bitmap classes not both driven')
     return reasons
